@@ -267,6 +267,13 @@ Definition zip_mask {A} (zero : A) (a : list (list A)) (m : list (list bool)) : 
   map (fun rm : list A * list bool =>
          map (fun vb : A * bool => if snd vb then zero else fst vb) (combine (fst rm) (snd rm))) (combine a m).
 
+(* Array2D.resized_from: values and mask are resized separately (centred crop / embedding), then masked entries are zero *)
+Definition resized_arr_spec {A} (zero : A) (arr : arr2d A) (r0 r1 : Z) (mpv : Z) : arr2d A :=
+  let m' := resize_spec (negb (mpv =? 0)) (snd arr) r0 r1 in
+  (zip_mask zero (resize_spec zero (fst arr) r0 r1) m', m').
+(* what an Array2D holds: masked entries are zero *)
+Definition normal_arr {A} (zero : A) (arr : arr2d A) : arr2d A := (zip_mask zero (fst arr) (snd arr), snd arr).
+
 (* the (coordinate, data, noise) triples of the unmasked pixels, row-major *)
 Definition triples_spec {O : NumOps} {A} (zero : A) (data noise : list (list A)) (m : list (list bool)) (g : @geom O)
   : list ((T O * T O) * (A * A)) :=
@@ -275,6 +282,10 @@ Definition triples_spec {O : NumOps} {A} (zero : A) (data noise : list (list A))
     if get2 true m y x then []
     else [(pixel_centre_spec H W g (Z.of_nat y) (Z.of_nat x), (get2 zero data y x, get2 zero noise y x))])
     (seq 0 (length (hd [] m)))) (seq 0 (length m)).
+
+(* the triples read off a masked dataset (data, noise map): grid of the mask, slim data, slim noise *)
+Definition triples_of {O : NumOps} {A} (zero : A) (g : @geom O) (d n : arr2d A) : list ((T O * T O) * (A * A)) :=
+  combine (grid_slim_via_mask (snd d) g) (combine (slim_of zero (fst d) (snd d)) (slim_of zero (fst n) (snd n))).
 
 (* zero-extended read *)
 Definition ext_get {A} (zero : A) (a : list (list A)) (y x : Z) : A :=
@@ -365,10 +376,8 @@ Definition odd_kernel (k : Z * Z) : bool := Z.odd (fst k) && Z.odd (snd k) && (1
 Definition proper {B} (m : list (list B)) : bool := (1 <=? nrows m) && (1 <=? ncols m) && rectb (nrows m) (ncols m) m.
 Definition proper2 (a : a2) : bool := proper (fst a) && proper (snd a) && shape_eqb (fst a) (snd a).
 Definition same_parity (s t : Z * Z) : bool := Z.even (fst s - fst t) && Z.even (snd s - snd t).
-Definition resized_a2_spec (a : a2) (rs : Z * Z) (mpv : Z) : a2 :=
-  let m' := resize_spec (negb (mpv =? 0)) (snd a) (fst rs) (snd rs) in
-  (zip_mask 0 (resize_spec 0 (fst a) (fst rs) (snd rs)) m', m').
-Definition normal_a2 (a : a2) : a2 := (zip_mask 0 (fst a) (snd a), snd a).
+Definition resized_a2_spec (a : a2) (rs : Z * Z) (mpv : Z) : a2 := resized_arr_spec 0 a (fst rs) (snd rs) mpv.
+Definition normal_a2 (a : a2) : a2 := normal_arr 0 a.
 Definition qtriple_eqb (p q : (Q * Q) * (Z * Z)) : bool := qq_eqb (fst p) (fst q) && prod_eqb Z.eqb Z.eqb (snd p) (snd q).
 (* search the top-left corner of the zoom window among all offsets that keep the first unmasked pixel inside *)
 Definition zoom_ok (a : a2) (e : zarr) : bool :=
